@@ -61,3 +61,12 @@ Proof. vm_compute. reflexivity. Qed.
 
 Lemma ev1_n_cube : chunk_limit <= ev1_words_num * ev1_words_num * ev1_words_num.
 Proof. vm_compute. discriminate. Qed.
+
+Lemma ev1_nums_eq : ev1_word_nums = [12]. Proof. reflexivity. Qed.
+Lemma ev1_ent_eq : ev1_entropy_bit_lens = [128]. Proof. reflexivity. Qed.
+Lemma ev1_wl_pos : 0 < wl_len wl_ev1.
+Proof. rewrite (proj1 (proj2 (wl_okb_sound _ _ ev1_wl_okb))). reflexivity. Qed.
+Lemma ev1_wl_cube : chunk_limit <= wl_len wl_ev1 * wl_len wl_ev1 * wl_len wl_ev1.
+Proof. rewrite (proj1 (proj2 (wl_okb_sound _ _ ev1_wl_okb))). exact ev1_n_cube. Qed.
+Lemma ev1_wl_nodup : NoDup wl_ev1.
+Proof. exact (proj1 (wl_okb_sound _ _ ev1_wl_okb)). Qed.
